@@ -63,6 +63,7 @@ def main(tier):
         model_ok = False
         ck.broken_ties.append("model evaluation failed: " + str(e)[-1500:])
     first = True
+    recheck = []
     for (lo, med) in (THRESHOLDS if thorough else THRESHOLDS[:4]):
         cfg = os.path.join(d, ".pyscn.toml")
         if (lo, med) == (9, 19):
@@ -121,6 +122,7 @@ def main(tier):
                     tie += 1
                     if tie <= 3:
                         ck.broken_ties.append("model tie: dead statements of %s in %s differ: pyscn %s, Flow.v %s" % (name, m["path"], sorted(impl_dead), sorted(model_dead)))
+                    recheck.append((m, name, k0, sorted(impl_dead), c))
                     continue
                 stats["dead_decisions"] += rec["cx"] != rec["mccabe"] or 0
                 if c != rec["mccabe"]:
@@ -134,6 +136,21 @@ def main(tier):
                     tie += 1
                     ck.broken_ties.append("model tie: complexity of %s: pyscn %d, Flow.v %d" % (name, c, rec["cx"]))
         first = False
+    # search for a failing input when the tie is broken: McCabe number w.r.t. pyscn's own dead set
+    if recheck:
+        try:
+            items = ["(mccabe_at %s %d %s)" % (pygen.coq_block(m["ast"]), k0, lib.clist(["%d" % k for k in dead]))
+                     for (m, name, k0, dead, c) in recheck[:40]]
+            out = lib.coq_eval("C03_recheck", cc.REQ, "Eval vm_compute in %s.\n" % lib.clist(items))
+            vals = lib.parse_coq_values(out)[0]
+            for (m, name, k0, dead, c), v in zip(recheck, vals):
+                if v != c and nviol < 3:
+                    nviol += 1
+                    ck.violation("complexity of %s is %d but one plus the decision points outside the code pyscn itself reports dead is %d"
+                                 % (name, c, v), {"kind": "mccabe", "file": m["path"], "source": m["lines"], "function": name,
+                                                  "impl": c, "spec_mccabe_with_impl_dead_set": v, "impl_dead_statements": dead})
+        except Exception as e:
+            ck.broken_ties.append("recheck evaluation failed: " + str(e)[-500:])
     ck.samples = [{"file": mods[0]["path"], "source_head": mods[0]["lines"][:30]}]
     ck.cov.update({
         "evaluations": stats["c03_functions"] + stats["risk_checks"],
